@@ -176,9 +176,10 @@ PROPS = {
             {"kind": "verus", "unit": "gnth"},
             {"kind": "verus", "unit": "genchain"},
             {"kind": "verus", "unit": "gwindows"},
+            {"kind": "verus", "unit": "ggroup"},
         ],
         "unreached": [
-            "the adaptors SuccessorsUntil, Zip, Chain, Repeat, WithCount, Group, Product of XGenerator::_iter; that std's filter_map / map_while / map / scan apply the step closure to every element in order (documented meaning, trusted); laziness / look-ahead, re-iterability, the Chain arm of _iter (flat_map over the parts; XGenerator::chain's flattening is under contract), the consumers join / the reducing ones (to_array, len, last, get, nth are under contract from the statement after the downcast), and the adaptors written in the xray language",
+            "the adaptors SuccessorsUntil, Zip, Chain, Repeat, WithCount, Product of XGenerator::_iter; that std's filter_map / map_while / map / scan apply the step closure to every element in order (documented meaning, trusted); laziness / look-ahead, re-iterability, the Chain arm of _iter (flat_map over the parts; XGenerator::chain's flattening is under contract), the consumers join / the reducing ones (to_array, len, last, get, nth are under contract from the statement after the downcast), and the adaptors written in the xray language",
         ],
         "assumptions": ["V-gstep: the evaluator as a deterministic function `apply`; predicates answer a Bool (type fact, C01); std's filter_map / map_while / map / scan apply the closure to each element in order",
                         "std::iter::Iterator::{skip, take} by their documented meaning on a sequence view (finite-prefix model of a stream)",
@@ -311,7 +312,7 @@ CLAIMS = {
     },
     "C16": {
         "engine": "vx+verus",
-        "technique": "contract-based deductive verification: Verus contracts on the real text of the Slice arm of XGenerator::_iter, of the merge arithmetic (start, end, guard) of XGenerator::slice, and of the element closures of the adaptors Filter, TakeWhile, SkipUntil, Map, Aggregate, and of the loops of the consumers to_array / len / last / get",
+        "technique": "contract-based deductive verification: Verus contracts on the real text of the Slice arm of XGenerator::_iter, of the merge arithmetic (start, end, guard) of XGenerator::slice, and of the element closures of the adaptors Filter, TakeWhile, SkipUntil, Map, Aggregate, Windows, Group, of XGenerator::chain, and of the loops of the consumers to_array / len / last / get",
         "text": "Narrow (mechanisms): the consumers to_array, len, last and get are proved to return the array of all elements in order, their number, the last element (an error value for the empty generator) and the element at the requested index (an error value beyond the end), and to end with the leftmost error value / a violation when an element is one; the element step of Filter (kept exactly when the predicate answers true), TakeWhile (the stream ends at the first false), SkipUntil (dropped until the first true, then everything passes and the predicate is no longer consulted), Map (replaced by the function's answer) and Aggregate (state := f(state, element), which is the element yielded) is proved for every incoming element, including that a violation is handed on and a callback's error value is the element yielded. Skip/take composition: `Slice(inner, start, end)` is proved to yield exactly elements [start, end) of the inner stream, the merged bounds of nested slices are proved to be the composition (lemma over the window view) and overflow-free under the guard the code tests.",
         "note": "The other adaptors, laziness and re-iterability are listed as unreached; std skip/take are axiomatised on a finite-prefix sequence view and filter_map / map_while / map / scan are trusted to apply the step closure to each element in order; the evaluator is a deterministic function `apply`.",
     },
